@@ -676,6 +676,26 @@ def run(ctx):
         exercise(spec, rng, 13 if ctx.quick else 15)
         if i % len(names) == 0:
             adjoint_and(rng)
+    # exhaustive small sub-space: IntegerComparator for every value 0..2^n+1, both comparisons, n = 1..3 (boundary values)
+    jobs = [(n, value, geq) for n in (1, 2, 3) for value in range(0, 2**n + 2) for geq in (True, False)]
+    for (n, value, geq) in ctx.my(jobs):
+        if not ctx.more():
+            break
+        cw, tw = list(range(n)), [n]
+        nwork = (value + n) % 2
+        ww = [n + 1] if nwork else []
+        kw = {"work_wires": ww} if ww else {}
+
+        def exp(v, value=value, geq=geq):
+            return {"t": v["t"] ^ int((v["c"] >= value) if geq else (v["c"] < value))}
+
+        def cls_cmp(path, why, wrong, allwrong, value=value, geq=geq, n=n):
+            if why.startswith("raise:") and (not geq) and value > 2**n:
+                return "IntegerComparator:lt-value-beyond-register-raises"
+            return None
+
+        exercise(Spec("IntegerComparator", lambda: qp.IntegerComparator(value, geq=geq, wires=cw + tw, **kw), [("c", cw), ("t", tw)], ww,
+                      lambda v: True, exp, {"n": n, "value": value, "geq": geq, "nwork": nwork, "sweep": True}, classifier=cls_cmp), rng, 13)
     for nm in names:
         if nm not in ctx.classes:
             ctx.uncovered(nm, "not reached within the budget")
